@@ -45,6 +45,7 @@ struct _map {
 struct _map_itr {
     m_map_t *m;
     map_elem *curr;
+    map_elem *first;    // empty slot the scan started from; reaching it again ends the iteration
     bool removed;
 };
 
@@ -284,21 +285,37 @@ _public_ int m_map_itr_next(m_map_itr_t **itr) {
     M_PARAM_ASSERT(itr && *itr);
     
     m_map_itr_t *i = *itr;
+    map_elem *const table_end = &i->m->table[i->m->table_size];
     if (!i->curr) {
-        /* First time: start from first elem */
-        i->curr = &i->m->table[0];
-    } else {
+        /*
+         * First time: start right after an empty slot (load factor < 1: there is one),
+         * so that no chain wraps around the point where the scan starts; removing the
+         * current element can then never shift an already visited entry ahead of us.
+         */
+        i->first = &i->m->table[0];
+        while (i->first->key) {
+            i->first++;
+        }
+        i->curr = i->first + 1;
+    } else if (!i->removed) {
         /* Normally: start from subsequent element */
-        i->curr = i->curr + 1 - i->removed;
+        i->curr = i->curr + 1;
     }
     
     i->removed = false;
     bool found = false;
-    for (; i->curr < &i->m->table[i->m->table_size]; i->curr++) {
+    while (true) {
+        if (i->curr == table_end) {
+            i->curr = &i->m->table[0];
+        }
+        if (i->curr == i->first) {
+            break;
+        }
         if (i->curr->key) {
             found = true;
             break;
         }
+        i->curr++;
     }
     
     /* Automatically free it */
@@ -390,7 +407,17 @@ _public_ int m_map_iterate(const m_map_t *m, m_map_cb fn, void *userptr) {
     M_PARAM_ASSERT(fn);
     M_PARAM_ASSERT(m_map_len(m) > 0);
     
-    MAP_FOREACH(m->table, m->table_size, {
+    /*
+     * Start right after an empty slot (load factor < 1: there is one), so that no
+     * chain wraps around the point where the scan starts: removing the current
+     * entry can then never shift an already visited entry ahead of us.
+     */
+    size_t start = 0;
+    while (m->table[start].key) {
+        start++;
+    }
+    for (size_t n = 1; n < m->table_size; n++) {
+        map_elem *entry = &m->table[MAP_SIZE_MOD(m, start + n)];
         if (!entry->key) {
             continue;
         }
@@ -407,12 +434,12 @@ _public_ int m_map_iterate(const m_map_t *m, m_map_cb fn, void *userptr) {
         }
         if (entry->key != key) {
             /* Run this entry again if fn() deleted it */
-            --entry;
+            --n;
         } else if (num_entries != m->length) {
             /* Stop immediately if fn put/removed another entry */
             return -EACCES;
         }
-    });
+    }
     return 0;
 }
 
